@@ -35,6 +35,7 @@ type seqCfg struct {
 	bodyMax    int64
 	listKey    uint32 // thresholdListKey: a node with fewer keys lists its items instead of its children
 	home       string
+	phased     bool // a few writes per process life, then GC (engine seq, mix full)
 }
 
 type seqStore struct {
@@ -661,6 +662,13 @@ func engineSeq(c *Ctx) {
 			if len(cfg.served) > 2 {
 				cfg.served = cfg.served[:2]
 			}
+			cfg.phased = r.Chance(60)
+			if cfg.phased {
+				cfg.nb, cfg.served = 1, []int{0}
+				if cfg.height > 3 {
+					cfg.height = 3
+				}
+			}
 		}
 		seqCase(c, r, fmt.Sprintf("%d-%d", c.seed, ci), cfg)
 		os.RemoveAll(home)
@@ -716,6 +724,82 @@ func seqCase(c *Ctx, r *RNG, id string, cfg seqCfg) {
 	}
 	ts := uint32(1500000000 + r.Intn(1000))
 	nrestart := 0
+	if cfg.phased {
+		// phased layout: a few writes per process life.  A new process always starts a new data file, so the files
+		// stay far from full, deletes and overwrites land in later files than the records they supersede, and a GC
+		// range that starts after file 0 has an earlier, never collected, non-full file as its destination.
+		c.count("case.phased")
+		hot := keys
+		if len(hot) > 6 {
+			hot = hot[:6]
+		}
+		nph := 2 + r.Intn(4)
+		for ph := 0; ph < nph; ph++ {
+			nw := 1 + r.Intn(7)
+			for i := 0; i < nw; i++ {
+				k := hot[r.Intn(len(hot))]
+				ts += uint32(r.Intn(3))
+				switch p := r.Intn(100); {
+				case p < 55:
+					_, v := genValue(r, len(k), 180)
+					s.doSet(c, k, v, []uint32{0, 1, 0x204}[r.Intn(3)], 0, ts)
+					c.count("op.set")
+				case p < 85:
+					s.doDelete(c, k)
+					c.count("op.delete")
+				case p < 92:
+					s.doIncr(c, k, r.Intn(9)-2)
+					c.count("op.incr")
+				default:
+					s.doGet(c, k)
+					c.count("op.get")
+				}
+			}
+			mode := 0
+			if r.Chance(50) {
+				mode = 1
+			}
+			if !s.restart(c, r, mode) {
+				c.line("end")
+				return
+			}
+			c.count("op.restart")
+		}
+		npass := 1 + r.Intn(3)
+		lastEnd := -1
+		for pass := 0; pass < npass; pass++ {
+			bkt := cfg.served[r.Intn(len(cfg.served))]
+			head := s.hs.VerifHead(bkt)
+			begin, end := 0, 0
+			if head > 1 {
+				begin = 1 + r.Intn(head-1)
+				if lastEnd >= 0 && lastEnd+1 < head && r.Chance(60) {
+					begin = lastEnd + 1 // continue behind the previous pass
+				}
+				end = begin + r.Intn(head-begin)
+			}
+			if pass == 0 && r.Chance(30) {
+				begin = 0
+				if head > 0 {
+					end = r.Intn(head)
+				}
+			}
+			s.doGC(c, bkt, begin, end, 0, r.Chance(40), false)
+			c.count("op.gc")
+			lastEnd = end
+			if theHub.fatal != "" {
+				break
+			}
+			if r.Chance(30) {
+				if !s.restart(c, r, r.Intn(2)) {
+					c.line("end")
+					return
+				}
+				c.count("op.restart")
+			}
+		}
+		nops = r.Intn(12)
+	}
 	for i := 0; i < nops; i++ {
 		if f := theHub.takeFatal(); f != "" {
 			c.line("fatal => %s", strings.ReplaceAll(f, "\n", " "))
@@ -891,9 +975,22 @@ func seqReplay(c *Ctx, base string) {
 	var s *seqStore
 	n := 0
 	r := NewRNG(c.seed)
+	// -mix probe: the search for a failing input after a tie broke — every replayed case is extended by a
+	// restart that rebuilds the tree from the data files and a get of every key the case touched
+	var probeKeys []string
+	seenKey := map[string]bool{}
 	for _, l := range replayLines(c.replay) {
 		switch l.op {
+		case "set", "del", "incr", "get", "meta":
+			k := string(unhx(l.args[0]))
+			if !seenKey[k] {
+				seenKey[k] = true
+				probeKeys = append(probeKeys, k)
+			}
+		}
+		switch l.op {
 		case "case":
+			probeKeys, seenKey = nil, map[string]bool{}
 			n++
 			home := filepath.Join(base, fmt.Sprintf("replay%d", n))
 			os.RemoveAll(home)
@@ -996,6 +1093,14 @@ func seqReplay(c *Ctx, base string) {
 				// files lines are emitted by restart/end themselves
 			}
 		case "end":
+			if c.mix == "probe" {
+				s.flushAll()
+				c.line("flush")
+				s.restart(c, r, 1)
+				for _, k := range probeKeys {
+					s.doGet(c, k)
+				}
+			}
 			s.flushAll()
 			if f := theHub.takeFatal(); f != "" {
 				c.line("fatal => %s", strings.ReplaceAll(f, "\n", " "))
